@@ -255,6 +255,31 @@ func ptwalkCase(c *hx.Ctx, i int, img *iImage) {
 	}
 }
 
+// svdCase: the supplementary (Joliet) descriptor of a real image against the model's decoder, and the
+// model's encoder must give the very same 2048 bytes again (theorem svd_roundtrip).
+func svdCase(c *hx.Ctx, i int, cf cfg, b built, loc *located) {
+	id := fmt.Sprintf("d/svd/%d", i)
+	img := loc.img
+	if !c.Want(id) || !cf.joliet || !img.hasJoliet {
+		return
+	}
+	for k := 0; k < 8; k++ {
+		d := b.dev.Bytes(loc.base+loc.firstDesc+int64(k)*loc.stride, 2048)
+		if d[0] == 255 {
+			return
+		}
+		if d[0] != 2 {
+			continue
+		}
+		c.Case(id, "iso.svd", "b="+hx.Hex(d))
+		c.Impl(id, fmt.Sprintf("flags=%d", d[7]), "joliet=1", fmt.Sprintf("vol=%d", img.jVolBlocks), fmt.Sprintf("set=%d", binary.LittleEndian.Uint16(d[120:])),
+			fmt.Sprintf("seq=%d", binary.LittleEndian.Uint16(d[124:])), fmt.Sprintf("bs=%d", img.bs), fmt.Sprintf("ptS=%d", img.jptSize),
+			fmt.Sprintf("ptL=%d", img.jptL), fmt.Sprintf("ptM=%d", img.jptM), fmt.Sprintf("root=%d:%d", img.jRootLoc, img.jRootSize), "re=1")
+		c.Stat("corr.svd")
+		return
+	}
+}
+
 func hexLower(b []byte) string {
 	const digits = "0123456789abcdef"
 	out := make([]byte, 0, 2*len(b))
